@@ -162,3 +162,21 @@ package profiledb
 
 //@ interface Metrics method *
 //@   modifies nothing
+
+// ---------------------------------------------------------------------------
+// C14, "also after restart": a file cache that loads and holds profiles and
+// devices is installed whole, as a full synchronisation, and its time of
+// synchronisation becomes the database's; a cache of another version is
+// ignored without failing the start; any other load error is reported.
+// (What Load returns is the file-cache codec's subject; assumed here: loaded
+// profiles and devices are complete objects with distinct IDs.)
+//@ import internal github.com/AdguardTeam/AdGuardDNS/internal/profiledb/internal
+//@ interface internal.FileCacheStorage method Load
+//@   modifies nothing
+//@   ensures err != nil ==> c == nil
+//@   ensures c != nil ==> validDevs(c.Devices) && distinctDevs(c.Devices) && validProfs(c.Profiles) && distinctProfs(c.Profiles)
+//@ func (*Default).loadFileCache
+//@   property C14
+//@   requires DB(db) && db.logger != nil && ref(db.cache) != 0
+//@   modifies mapof(db.profiles), mapof(db.devices), mapof(db.dedicatedIPToDeviceID), mapof(db.deviceIDToProfileID), mapof(db.humanIDToDeviceID), mapof(db.linkedIPToDeviceID), db.syncTime, db.lastFullSync
+//@   atcall setProfiles assert a-loaded-cache-is-installed-whole-as-a-full-synchronisation: arg2 == c.Profiles && arg3 == c.Devices && arg4 && len(c.Profiles) > 0 && len(c.Devices) > 0
